@@ -153,6 +153,16 @@ class TlcResult:
             cov[a] = (pd + d, pt + t)
         return cov
 
+    def case_lines(self):
+        res = []
+        for m in re.finditer(r'^<<"CASE", "(.*)">>$', self.out, re.M):
+            s = m.group(1).replace('\\"', '"').replace("\\\\", "\\")
+            try:
+                res.append(json.loads(s))
+            except json.JSONDecodeError:
+                pass
+        return res
+
     def sched_lines(self):
         res = []
         for m in re.finditer(r'^<<"SCHED", "(.*)">>$', self.out, re.M):
